@@ -195,6 +195,27 @@ def register(op):
         fresh()
         return res
 
+    @op("c11_macro_overlap")
+    def _(arg):
+        """a macrostate is alive; another, different member set that shares members with it is requested without a name:
+        either refused, or a macrostate named after / represented by ITS canonically smallest member"""
+        cspecs, set1, set2, k = arg
+        fresh()
+        cs = [cplx(s, name=f"X{i}") for i, s in enumerate(cspecs)]
+        m1 = MAC[k]([cs[i] for i in set1])
+        try:
+            m2 = MAC[k]([cs[i] for i in set2])
+        except bc.SingletonError as e:
+            res = ["refused", e.existing is m1]
+        else:
+            smallest = min((cs[i] for i in set2), key=lambda c: c.canonical_form)
+            res = ["object", m2 is m1, m2.name, m2.representative.name, smallest.name, len(m2),
+                   sorted(x.name for x in m2.complexes) == sorted(cs[i].name for i in set(set2))]
+        m1 = m2 = None
+        del cs
+        fresh()
+        return res
+
     @op("c11_reaction")
     def _(arg):
         kind, specs, re1, pr1, re2, pr2, rtype, name, k = arg
@@ -204,9 +225,11 @@ def register(op):
             keyf = ckey
         else:
             objs = []
-            for i, (cspecs, mk) in enumerate(specs):
+            for i, spec in enumerate(specs):
+                cspecs, mk = spec[0], spec[1]
                 cs = [cplx(s, name=f"X{i}_{j}") for j, s in enumerate(cspecs)]
-                objs.append(MAC[mk](cs))
+                # optionally named by the user after one of its members (not necessarily the smallest)
+                objs.append(MAC[mk](cs, name=cs[spec[2]].name) if len(spec) > 2 and spec[2] is not None else MAC[mk](cs))
             keyf = mkey
         members = [[keyf(o), o.name] for o in objs]
         r1 = RXN[k]([objs[i] for i in re1], [objs[i] for i in pr1], rtype, name=name)
